@@ -208,6 +208,8 @@ def byte_strings(draw):
     return {"b": bytes(base)}
 
 
+from props.ble_layers import C15_BLE_LAYERS  # noqa: E402
+
 SPEC = Property(
     P, "exploration",
     rule=("item lists over types 0..255 with value lengths from the boundary grid "
@@ -224,6 +226,7 @@ SPEC = Property(
         Layer("bytes-len3", run_bytes_batch, enumerate=enum_len3, exhaustive=True, tiers=("thorough",),
               space="all 16,777,216 byte strings of length 3 (one case = one 2-byte prefix x 256 last bytes)"),
         Layer("bytes-gen", run_bytes, strategy=byte_strings, n={"quick": 6000, "thorough": 200000}, min_nontrivial=500),
+        *C15_BLE_LAYERS,
     ],
     assumptions=["reference TLV8 codec in vlib/refhap.py written from HAP R2 5.15",
                  "how non-canonical input is grouped into items is not constrained (only its per-type byte runs)"],
